@@ -130,9 +130,12 @@ Example c19_appended_example :
   let existing := "[AMAZON]" ++ s1 LF ++ "match: contains(""AMZN"")" ++ s1 LF ++ "category: Shopping" ++ s1 LF in
   let d := "AMAZON 00012345 SEATTLE WA" in
   observe_text no_re existing d = ObsLoaded false /\
-  (exists text, suggested_rule Fixed d [] = Some text /\ observe_text no_re (existing ++ String LF text) d = ObsLoaded true) /\
+  match suggested_rule Fixed d [] with
+  | Some text => observe_text no_re (existing ++ String LF text) d
+  | None => ObsUnm
+  end = ObsLoaded true /\
   name (rule_of d) = "Amazon".
-Proof. vm_compute. repeat split; try reflexivity. eexists; split; reflexivity. Qed.
+Proof. vm_compute. repeat split; reflexivity. Qed.
 Example c19_shrinks_hypothesis_satisfiable :
   let existing := [ {| name := "Netflix"; mexpr := ECall "contains" "NETFLIX"; category := "Fun" |} ] in
   matched no_re existing "Acme Foo" = Some false /\ matched no_re existing "ACME.COM" = Some false /\
